@@ -1091,7 +1091,7 @@ private def extra (n : String) (cid : Nat) : Entry := ⟨.file, t n, false, fals
 private def instFile (v : String) (cid : Nat) (ow : Bool := false) : Op :=
   ⟨.install, [], ow, false, t "notation-foo", [], false, [exeFoo v cid], "background"⟩
 private def instDir (es : List Entry) (ow : Bool := false) : Op := ⟨.install, [], ow, true, t "pkg", [], false, es, "background"⟩
-private def seq (ops : List Op) : Input := ⟨"seq", false, "none", ops, [], []⟩
+private def seq (ops : List Op) : Input := ⟨"seq", false, "none", "canonical", false, ops, [], []⟩
 private def errs (i : Input) : List Err := (run i).steps.map (·.err)
 private def versions (i : Input) : List (List (Option Text)) := (run i).steps.map (fun s => s.root.map (·.version))
 
